@@ -407,14 +407,18 @@ theorem pySet_map {α β : Type} (f : α → β) (l : List α) (i : Int) (v : α
   · rw [if_pos h, if_pos h]; rfl
   · rw [if_neg h, if_neg h]; simp [emap, List.map_set]
 
-theorem enlarge_mapR {ι κ : Type} (f : ι → κ) (r : RState ι) : enlarge (mapR f r) = mapR f (enlarge r) := by
+theorem enlarge_mapR {ι κ : Type} (f : ι → κ) (r : RState ι) : enlarge (mapR f r) = emap (mapR f) (enlarge r) := by
   unfold enlarge
-  by_cases h : (r.infos.length : Int) - 1 < r.active
-  · have h' : ((mapR f r).infos.length : Int) - 1 < (mapR f r).active := h
-    rw [if_pos h, if_pos h']
-    simp [mapR]
-  · have h' : ¬ ((mapR f r).infos.length : Int) - 1 < (mapR f r).active := h
-    rw [if_neg h, if_neg h']
+  have e1 : (mapR f r).infos = r.infos := rfl
+  have e2 : (mapR f r).active = r.active := rfl
+  rw [e1, e2]
+  by_cases h0 : r.active < 0 ∨ r.active > (r.infos.length : Int)
+  · rw [if_pos h0, if_pos h0]; rfl
+  · rw [if_neg h0, if_neg h0]
+    by_cases h : (r.infos.length : Int) - 1 < r.active
+    · rw [if_pos h, if_pos h]
+      simp [mapR, emap]
+    · rw [if_neg h, if_neg h]; rfl
 
 theorem assign_mapR {ι κ : Type} (f : ι → κ) (r : RState ι) (info : RoutineInfo) (items : List ι) :
     assign (mapR f r) info (items.map f) = emap (mapR f) (assign r info items) := by
@@ -436,26 +440,46 @@ theorem exitDef_mapR {ι κ : Type} (f : ι → κ) (r : RState ι) (h : SHeader
   | simple id =>
     simp only [exitDef]
     have : ({ mapR f r with active := id } : RState κ) = mapR f { r with active := id } := rfl
-    rw [this, enlarge_mapR, assign_mapR]
+    rw [this, enlarge_mapR]
+    cases enlarge { r with active := id } with
+    | error e => simp [emap]
+    | ok r1 => exact assign_mapR f r1 _ items
   | coro name =>
     simp only [exitDef]
     have : ({ mapR f r with active := (mapR f r).active + 1 } : RState κ) = mapR f { r with active := r.active + 1 } := rfl
     rw [this, enlarge_mapR]
-    generalize enlarge { r with active := r.active + 1 } = r1
-    have e1 : (mapR f r1).coros = r1.coros := rfl
-    have e2 : (mapR f r1).active = r1.active := rfl
-    rw [e1, e2]
-    cases pySet r1.coros r1.active (some name) with
+    cases enlarge { r with active := r.active + 1 } with
     | error e => simp [emap]
-    | ok coros =>
-      exact assign_mapR f { r1 with coros := coros } _ items
+    | ok r1 =>
+      show (match pySet (mapR f r1).coros (mapR f r1).active (some name) with
+        | .error e => .error e
+        | .ok coros => assign { mapR f r1 with coros := coros } ⟨.coroutine, 0, none⟩ (items.map f)) =
+        emap (mapR f) (match pySet r1.coros r1.active (some name) with
+        | .error e => .error e
+        | .ok coros => assign { r1 with coros := coros } ⟨.coroutine, 0, none⟩ items)
+      have e1 : (mapR f r1).coros = r1.coros := rfl
+      have e2 : (mapR f r1).active = r1.active := rfl
+      rw [e1, e2]
+      cases pySet r1.coros r1.active (some name) with
+      | error e => simp [emap]
+      | ok coros =>
+        exact assign_mapR f { r1 with coros := coros } _ items
   | forTarget id word target =>
     simp only [exitDef]
     have : ({ mapR f r with active := id } : RState κ) = mapR f { r with active := id } := rfl
     rw [this, enlarge_mapR]
-    cases kindOfWord word with
-    | none => simp [emap]
-    | some k => simp only; rw [assign_mapR]
+    cases enlarge { r with active := id } with
+    | error e => simp [emap]
+    | ok r1 =>
+      show (match kindOfWord word with
+        | none => .error .ssbCompilerError
+        | some k => assign (mapR f r1) (infoOfTarget k target) (items.map f)) =
+        emap (mapR f) (match kindOfWord word with
+        | none => .error .ssbCompilerError
+        | some k => assign r1 (infoOfTarget k target) items)
+      cases kindOfWord word with
+      | none => simp [emap]
+      | some k => exact assign_mapR f r1 _ items
 
 theorem pySet_mem {α : Type} (l l' : List α) (i : Int) (v : α) (h : pySet l i v = .ok l') :
     ∀ x ∈ l', x ∈ l ∨ x = v := by
@@ -469,15 +493,20 @@ theorem pySet_mem {α : Type} (l l' : List α) (i : Int) (v : α) (h : pySet l i
     intro x hx
     exact List.mem_or_eq_of_mem_set hx
 
-theorem enlarge_ops_mem {ι : Type} (r : RState ι) : ∀ l ∈ (enlarge r).ops, l ∈ r.ops ∨ l = [] := by
-  unfold enlarge
-  split
-  · intro l hl
-    simp only [List.mem_append, List.mem_replicate] at hl
-    rcases hl with h | h
-    · exact .inl h
-    · exact .inr h.2
-  · intro l hl; exact .inl hl
+theorem enlarge_ops_mem {ι : Type} (r r' : RState ι) (h : enlarge r = .ok r') :
+    ∀ l ∈ r'.ops, l ∈ r.ops ∨ l = [] := by
+  unfold enlarge at h
+  split at h
+  · cases h
+  · split at h
+    · cases h
+      intro l hl
+      simp only [List.mem_append, List.mem_replicate] at hl
+      rcases hl with h | h
+      · exact .inl h
+      · exact .inr h.2
+    · cases h
+      intro l hl; exact .inl hl
 
 theorem assign_ops_mem {ι : Type} (r r' : RState ι) (info : RoutineInfo) (items : List ι)
     (h : assign r info items = .ok r') : ∀ l ∈ r'.ops, l ∈ r.ops ∨ l = items := by
@@ -499,29 +528,43 @@ theorem exitDef_ops_mem {ι : Type} (r r' : RState ι) (hd : SHeader) (items : L
   cases hd with
   | simple id =>
     simp only [exitDef] at h
-    rcases assign_ops_mem _ _ _ _ h l hl with h1 | h1
-    · rcases enlarge_ops_mem _ l h1 with h2 | h2
-      · exact .inl h2
-      · exact .inr (.inr h2)
-    · exact .inr (.inl h1)
+    cases he : enlarge { r with active := id } with
+    | error e => rw [he] at h; cases h
+    | ok r1 =>
+      rw [he] at h
+      rcases assign_ops_mem _ _ _ _ h l hl with h1 | h1
+      · rcases enlarge_ops_mem _ _ he l h1 with h2 | h2
+        · exact .inl h2
+        · exact .inr (.inr h2)
+      · exact .inr (.inl h1)
   | coro name =>
     simp only [exitDef] at h
-    split at h
-    · cases h
-    · rcases assign_ops_mem _ _ _ _ h l hl with h1 | h1
-      · rcases enlarge_ops_mem _ l h1 with h2 | h2
-        · exact .inl h2
-        · exact .inr (.inr h2)
-      · exact .inr (.inl h1)
+    cases he : enlarge { r with active := r.active + 1 } with
+    | error e => rw [he] at h; cases h
+    | ok r1 =>
+      rw [he] at h
+      simp only at h
+      split at h
+      · cases h
+      · rcases assign_ops_mem _ _ _ _ h l hl with h1 | h1
+        · rcases enlarge_ops_mem _ _ he l h1 with h2 | h2
+          · exact .inl h2
+          · exact .inr (.inr h2)
+        · exact .inr (.inl h1)
   | forTarget id word target =>
     simp only [exitDef] at h
-    split at h
-    · cases h
-    · rcases assign_ops_mem _ _ _ _ h l hl with h1 | h1
-      · rcases enlarge_ops_mem _ l h1 with h2 | h2
-        · exact .inl h2
-        · exact .inr (.inr h2)
-      · exact .inr (.inl h1)
+    cases he : enlarge { r with active := id } with
+    | error e => rw [he] at h; cases h
+    | ok r1 =>
+      rw [he] at h
+      simp only at h
+      split at h
+      · cases h
+      · rcases assign_ops_mem _ _ _ _ h l hl with h1 | h1
+        · rcases enlarge_ops_mem _ _ he l h1 with h2 | h2
+          · exact .inl h2
+          · exact .inr (.inr h2)
+        · exact .inr (.inl h1)
 
 def BoundR (C : Dict String Nat) (r : RState NItem) : Prop := ∀ l ∈ r.ops, Bound C l
 
